@@ -104,6 +104,7 @@ class Model:
             self.spec_key = path
             self.presets = _load_tz(path)
             self.size = 4 * len(self.presets)
+            self.class_key = (self.area, self.spec_key)
             return
         path = db.resolve_file(self.dev, rec["reg_spec"])
         if path is None:
@@ -148,6 +149,8 @@ class Model:
             if r is not None:
                 self.seal = (r.offset, regspec.to_int(rec["seal_count"]))
         self.ow_rule = rec.get("ow_counts_rule") if self.area == "memcfg" else None
+        extra = repr(sorted((k, repr(v)) for k, v in rec.items() if k not in ("grouped_registers", "address", "instances", "region_number")))
+        self.class_key = (self.area, self.sub if self.area != "memcfg" else self.sub.split("/")[0], self.spec_key, extra)
 
     # -------------------------------------------------------------- helpers
     def visible(self) -> list:
@@ -377,7 +380,9 @@ class FcbAdapter(Adapter):
         return FCB.parse(data, family=self.dev, mem_type=self.mt(), revision=self.rev)
 
     def get_config(self, obj, diff=False):
-        return _yaml_load(obj.create_config())  # FCB has no dictionary form; its configuration is the YAML text
+        c = self.base_cfg()  # the dictionary create_config() renders as YAML
+        c["fcb_settings"] = obj.registers.get_config()
+        return c
 
     def yaml_config(self, obj):
         return obj.create_config()
@@ -438,7 +443,9 @@ class XmcdAdapter(Adapter):
         return XMCD.parse(data, family=self.dev, revision=self.rev)
 
     def get_config(self, obj, diff=False):
-        return _yaml_load(obj.create_config())
+        c = self.base_cfg()  # the dictionary create_config() renders as YAML
+        c["xmcd_settings"] = obj.registers.get_config()
+        return c
 
     def yaml_config(self, obj):
         return obj.create_config()
@@ -667,7 +674,13 @@ def run_defaults(case, o: Oracle) -> None:
         raise HarnessError("tuple %s is not in the database under test" % t)
     ad = _adapter(m)
     area = m.area
-    o.label("step:defaults", "area:" + area, "sub:%s/%s" % (area, m.sub if area != "memcfg" else m.sub.split("/")[0]))
+    # 'full' = everything; 'light' (quick tier, tuples whose specification/grouping was already taken by a smaller
+    # tuple index) = template, schema, load, export, size, parse, verify, re-export, one configuration round trip
+    if "full" in case:
+        full = bool(case["full"])
+    else:
+        full = _S.get("tier") != "quick" or _S.get("repr", {}).get(m.class_key) in (None, (m.dev, m.rev, m.sub))
+    o.label("step:defaults", "area:" + area, "sub:%s/%s" % (area, m.sub if area != "memcfg" else m.sub.split("/")[0]), "depth:full" if full else "depth:light")
     if m.problems:
         o.label("spec_irregular")
     o.nontrivial(True)
@@ -700,32 +713,34 @@ def run_defaults(case, o: Oracle) -> None:
                 check_config(cfg, ad.schemas())
         with o.spsdk("template_load" if area not in ("fuses", "xmcd") else "template_schema_load"):
             obj = ad.load(cfg)
-        # every non-reserved, non-hidden register of the specification is offered by the template
+        # every non-reserved register of the specification is offered by the template
+        sett = _settings_of(m, cfg)
         if area != "tz":
-            sett = _settings_of(m, cfg)
             missing = [r.name for r in m.visible() if id(r) not in m.group_of and r.name not in sett]
             if area == "xmcd":
                 missing = [n for n in missing if n != "configOption1"]
             o.check("registers_loaded", not missing, "template_misses_registers",
                     "%s: %d of %d specified registers are not in the template, e.g. %s" % (t, len(missing), len(m.visible()), missing[:5]))
         else:
-            sett = _settings_of(m, cfg)
             o.check("registers_loaded", list(sett.keys()) == list(m.presets.keys()), "template_presets",
                     "%s: template presets differ from the preset file (%d vs %d)" % (t, len(sett), len(m.presets)))
 
-    # ---------------- registers of a fresh object are those of the specification
+    # ---------------- registers of the object are those of the specification
     fresh = None
-    with o.spsdk("construct"):
-        fresh = ad.new()
-    if fresh is not None and area != "tz":
+    if full or obj is None:
+        with o.spsdk("construct"):
+            fresh = ad.new()
+    probe = fresh if fresh is not None else obj
+    if probe is not None and area != "tz" and (full or area != "xmcd"):  # XMCD.registers deep-copies the database on every access
         with o.spsdk("registers_loaded"):
-            _check_registers_loaded(m, ad.regs_obj(fresh), o)
+            _check_registers_loaded(m, ad.regs_obj(probe), o)
 
     if not ad.has_binary:
-        _defaults_fuses(m, ad, obj, fresh, cfg, o)
+        _defaults_fuses(m, ad, obj, fresh, cfg, o, full)
         return
 
     # ---------------- (b) size, parse, verify ; (c) re-export ; (d) config round trips
+    done: dict = {}
     for name, x in (("template", obj), ("fresh", fresh)):
         if x is None:
             continue
@@ -741,34 +756,56 @@ def run_defaults(case, o: Oracle) -> None:
         if area == "tz":
             want = b"".join(struct.pack("<I", v & 0xFFFFFFFF) for v in m.presets.values())
             o.check("readback", data == want, "tz_defaults:" + name, "%s: default export differs from the preset file" % (t,))
+        if data in done:
+            continue  # same bytes as the template-loaded object: the chain below is a function of the bytes
+        done[data] = name
         parsed = None
         with o.spsdk("parse_accepts", name):
             parsed = ad.parse(data)
         if parsed is None:
             continue
-        with o.spsdk("verify", name):
-            msg = ad.verify(parsed)
-            if msg:
-                o.fail("verify", "errors:" + name, "%s: verifier rejects own export: %s" % (t, msg[:300]))
+        if full or area != "xmcd":
+            with o.spsdk("verify", name):
+                msg = ad.verify(parsed)
+                if msg:
+                    o.fail("verify", "errors:" + name, "%s: verifier rejects own export: %s" % (t, msg[:300]))
         with o.spsdk("reexport", name):
             again = ad.export(parsed)
             o.check("reexport", again == data, name, "%s: export(parse(b)) != b (%s)" % (t, _diff(data, again)))
         if area == "xmcd":
             with o.spsdk("computed", "xmcd_crc"):
-                o.eq("computed", "xmcd_crc:" + name, parsed.crc, RC.crc32_mpeg2(data).to_bytes(4, "big"))
+                if full:
+                    o.eq("computed", "xmcd_crc:" + name, parsed.crc, RC.crc32_mpeg2(data).to_bytes(4, "big"))
                 o.check("export_size", parsed.header.xmcd_size == len(data), "xmcd_header_size:" + name,
                         "%s: header says %d bytes, binary has %d" % (t, parsed.header.xmcd_size, len(data)))
+                _check_xmcd_header(m, data, o, name)
         if area == "memcfg":
             _memcfg_words(m, parsed, data, o, name)
         if area in ("pfr", "ifr") and name == "fresh":
             continue  # a never-configured PFR page has no computed fields yet: its configuration is not expected to reproduce it
-        _config_roundtrips(m, ad, parsed, data, o, name)
+        if full or area != "xmcd":
+            _config_roundtrips(m, ad, parsed, data, o, name, full)
     # ---------------- (e) computed fields of the template-loaded binary, seal, ROTKH placement
     if area == "pfr" and obj is not None:
         with o.spsdk("computed", "export"):
             data = ad.export(obj)
             _check_computed(m, data, None, o, "template")
-            _pfr_seal_and_rotkh(m, obj, data, o)
+            if full:
+                _pfr_seal_and_rotkh(m, obj, data, o)
+
+
+_XMCD_IFACE = {"flexspi_ram": 0, "xspi_ram": 0, "semc_sdram": 1}
+_XMCD_TYPE = {"simplified": 0, "full": 1}
+
+
+def _check_xmcd_header(m: Model, data: bytes, o: Oracle, name: str) -> None:
+    """XMCD header word read from the binary with the header specification: tag 0xC, version 0, interface, type, size."""
+    h = m.header_regs[0]
+    got = {b.name: regspec.field_bits(data, h.offset, h.nbytes, b.offset, b.width) for b in h.named_bitfields()}
+    mt, ct = m.sub.split("/")
+    want = {"tag": 0xC, "version": 0, "memoryInterface": _XMCD_IFACE[mt], "configurationBlockType": _XMCD_TYPE[ct], "configurationBlockSize": len(data)}
+    bad = {k: (got.get(k), v) for k, v in want.items() if got.get(k) != v}
+    o.check("computed", not bad, "xmcd_header:" + name, "%s: header fields (got, want): %s" % (m.t, bad))
 
 
 def _diff(a: bytes, b: bytes) -> str:
@@ -784,7 +821,7 @@ def _check_registers_loaded(m: Model, regs_obj, o: Oracle) -> None:
 
     missing, wrong = [], []
     for r in m.regs:
-        if r.reserved or (m.area == "xmcd" and r.offset < m.header_bytes and False):
+        if r.reserved:
             continue
         try:
             sr = regs_obj.find_reg(r.name, include_group_regs=True)
@@ -800,8 +837,9 @@ def _check_registers_loaded(m: Model, regs_obj, o: Oracle) -> None:
     for g in m.groups:
         try:
             gr = regs_obj.find_reg(g.name)
-            if [s.uid for s in gr.sub_regs] != g.sub_uids:
-                wrong.append("group %s has sub-registers %s, database says %s" % (g.name, [s.uid for s in gr.sub_regs][:4], g.sub_uids[:4]))
+            want = [r.uid for r in g.subs]  # the members the specification of this revision really has
+            if [s.uid for s in gr.sub_regs] != want:
+                wrong.append("group %s has sub-registers %s, database + specification say %s" % (g.name, [s.uid for s in gr.sub_regs][:4], want[:4]))
         except SPSDKError:
             missing.append(g.name)
     o.check("registers_loaded", not missing, "missing_registers",
@@ -833,18 +871,20 @@ def _same_result(m: Model, ad: Adapter, other, data: bytes) -> str:
     return "" if again == data else _diff(data, again)
 
 
-def _config_roundtrips(m: Model, ad: Adapter, parsed, data: bytes, o: Oracle, name: str) -> None:
+def _config_roundtrips(m: Model, ad: Adapter, parsed, data: bytes, o: Oracle, name: str, full: bool = True) -> None:
     t = m.t
     with o.spsdk("config_roundtrip", "dict:" + name):
         cfg2 = ad.get_config(parsed)
         msg = _same_result(m, ad, ad.load(cfg2), data)
         o.check("config_roundtrip", not msg, "dict:" + name, "%s: load(get_config(x)) differs: %s" % (t, msg))
+    if not full:
+        return
     if ad.has_diff:
         with o.spsdk("config_roundtrip", "diff:" + name):
             cfg3 = ad.get_config(parsed, diff=True)
             msg = _same_result(m, ad, ad.load(cfg3), data)
             o.check("config_roundtrip", not msg, "diff:" + name, "%s: load(get_config(x, diff=True)) differs: %s" % (t, msg))
-    if m.area not in ("fcb", "xmcd"):  # their dictionary form already went through the YAML text
+    if True:
         with o.spsdk("config_roundtrip", "yaml:" + name):
             text = ad.yaml_config(parsed)
             if text is not None:
@@ -898,10 +938,15 @@ def _pfr_seal_and_rotkh(m: Model, obj, data: bytes, o: Oracle) -> None:
             o.label("rotkh_keys")
 
 
-def _defaults_fuses(m: Model, ad: Adapter, obj, fresh, cfg, o: Oracle) -> None:
+def _defaults_fuses(m: Model, ad: Adapter, obj, fresh, cfg, o: Oracle, full: bool = True) -> None:
     t = m.t
     for name, x in (("template", obj), ("fresh", fresh)):
-        if x is None:
+        if x is None or (not full and name == "fresh"):
+            continue
+        if not full:
+            with o.spsdk("config_roundtrip", "get_config:" + name):
+                ad.get_config(x)
+                ad.get_config(x, diff=True)
             continue
         with o.spsdk("config_roundtrip", "dict:" + name):
             c2 = ad.get_config(x)
@@ -1365,13 +1410,21 @@ def parts(ctx):
     s = _state()
     # build every model once here (parent process): specification files are read a single time and the
     # SPSDK database is loaded before the workers are forked
+    s["tier"] = ctx.tier
+    s["repr"] = {}
     for t in s["tuples"]:
-        _model(t)
-    try:
-        from spsdk.utils.database import DatabaseManager
+        m = _model(t)
+        s["repr"].setdefault(m.class_key, (m.dev, m.rev, m.sub))
+    try:  # imports and schema files are loaded here once; the forked workers inherit them
+        from spsdk.utils.database import DatabaseManager, get_schema_file
 
         DatabaseManager()
-    except Exception:  # noqa: BLE001 - a broken database shows up as failures of the cases, not here
+        import spsdk.fuses.fuses, spsdk.image.bca.bca, spsdk.image.fcb.fcb, spsdk.image.fcf.fcf, spsdk.image.trustzone  # noqa: F401,E401
+        import spsdk.image.xmcd.xmcd, spsdk.memcfg.memcfg, spsdk.pfr.pfr  # noqa: F401,E401
+
+        for f in ("general", "pfr", "bca", "fcf", "fcb", "xmcd", "tz", "fuses", "memcfg"):
+            get_schema_file(f)
+    except Exception:  # noqa: BLE001 - a broken tree shows up as failures of the cases, not here
         pass
     n_quick = 1400
     return [
